@@ -2012,10 +2012,17 @@ impl<'a, 'ast> Typecheck<'a, 'ast> {
         }
 
         if is_recursive {
-            let hole = self.subs.hole();
+            // The names chosen for the generalized variables must not be captured by a `forall`
+            // nested inside the type of any of the bindings, so the generalizer needs to see all
+            // of the types
+            let all_types = {
+                let subs = &self.subs;
+                let types: Vec<_> = resolved_types.iter().map(|t| t.concrete.clone()).collect();
+                (&*subs).tuple(&mut self.symbols, types)
+            };
             {
                 let mut generalizer =
-                    TypeGeneralizer::new(level, self, &hole, bindings[0].name.span);
+                    TypeGeneralizer::new(level, self, &all_types, bindings[0].name.span);
 
                 // Once all variables inside the let has been unified we can quantify them
                 debug!("Generalize recursive at {}", level);
